@@ -42,10 +42,32 @@ def is_failure_notice(m):
             or isinstance(m, TaskSequence) or isinstance(m, DatasetPurge) or isinstance(m, DatasetTransmitCommand) or isinstance(m, ExecutorShutdown))
 
 
-@assumed("cascade.executor.bridge:Bridge.shutdown")
+@assumed("cascade.executor.comms:ReliableSender.send")
+def _(self, host, m):
+    # C06 proves its contract; here: one ghost entry per message handed to the acknowledged sender
+    logs("send", host, m)
+    may_raise(KeyError, when=host not in self.hosts)
+    modifies(self.inflight, "idx", "events", "host", "message", "clazz", "at", "remaining")
+
+
+inline("cascade.executor.bridge:Bridge._send")
+
+
+@contract("cascade.executor.bridge:Bridge.shutdown", also=["C03"])
 def _(self):
-    logs("bridge_shutdown")
-    modifies("events")
+    hosts = self.sender.hosts
+    # "... and then shuts the executors down" / "the executor processes exit": every registered executor (an entry of the host table that is not
+    # a data-server alias) is sent ExecutorShutdown through the acknowledged sender - and nobody else is
+    ensures(forall(str, lambda h: implies(old(h in hosts) and not h.startswith("data."), logged(ev("send", h, ExecutorShutdown())))),
+            tag="every-executor-is-told-to-shut-down", top=True)
+    logs("bridge_shutdown")    # ghost marker for callers (recv_events, controller.run)
+    may_raise(KeyError, when=True)      # an exit notice of a host whose data alias is not registered
+    may_raise(ValueError, when=True)    # the listener rejects a malformed frame
+    invariant(0, forall(str, lambda h: implies(h in loop0_seen and not h.startswith("data."), logged(ev("send", h, ExecutorShutdown()))))
+              and forall(str, lambda h: (h in hosts) == old(h in hosts)))
+    invariant(1, forall(str, lambda h: implies(old(h in hosts) and not h.startswith("data."), logged(ev("send", h, ExecutorShutdown())))))
+    invariant(2, forall(str, lambda h: implies(old(h in hosts) and not h.startswith("data."), logged(ev("send", h, ExecutorShutdown())))))
+    modifies(self.sender.hosts, self.sender.inflight, "idx", "events", "host", "message", "clazz", "at", "remaining")
 
 
 @assumed("cascade.executor.comms:GraceWatcher.step")
@@ -58,6 +80,7 @@ def _(self):
     # "If a task raises, or a worker process ... dies ..., the controller's run still ends ... with an error": a batch that carries a
     # failure notice never comes back as a normal list of events - recv_events shuts the executors down and raises
     may_raise(ValueError, when=True)
+    may_raise(KeyError, when=True)   # from shutdown(): an exit notice of a host whose "data." alias is not registered (hosts are registered in pairs; that pairing is not tracked here)
     # (two obligations compose to it: the inner loop's invariant - a failure notice among the messages handled so far sets shutdown_reason,
     #  and nothing clears it - and this one: a normal return happens only with shutdown_reason unset)
     ensures(shutdown_reason is None, tag="returns-only-without-a-failure-notice", top=True)
